@@ -1,7 +1,7 @@
 (* C13  Length-prefix framing carries exactly the designated octets.
    Statements only; proofs in Proof/LenpLemmas.v; model Model/Lenp.v. *)
 From Ufw Require Import Base.Bits Base.Errno Model.ByteBuffer Model.Endpoints Model.Varint Model.Lenp
-  Proof.LenpLemmas Proof.RegpFraming.
+  Proof.LenpLemmas Proof.RegpFraming Proof.LenpTotal.
 Local Open Scope N_scope.
 
 (* the length in the kind's encoding: varint / one octet / 16,32-bit LE,BE; fixed kinds decode back *)
@@ -102,6 +102,48 @@ Theorem C13_decode_to_sink : forall oct payload r calls got kc, N.of_nat (length
     = Some (DOk (N.of_nat (length payload)), plain_src oct r calls', plain_snk false (got ++ payload) kc').
 Proof. exact lenp_d2s_var. Qed.
 Print Assumptions C13_decode_to_sink.
+
+(* ---- every behaviour script of the sink (fragmentation, zero-length returns, EINTR/EAGAIN, hard errors) ---- *)
+(* whatever the sink does: what reached it is a prefix of [length prefix ++ the n designated octets]; a success means all of it
+   reached the sink and the count is its length; EINTR/EAGAIN never come back *)
+Theorem C13_memory_to_sink_any : forall k snk0 xs n r k', lenp_memory_to_sink k snk0 xs n = Some (r, k') ->
+  exists sent, k_got k' = k_got snk0 ++ sent /\
+    (exists rest, lenp_prefix k n ++ firstn (N.to_nat n) xs = sent ++ rest) /\
+    (forall c, r = DOk c -> c = N.of_nat (length (lenp_prefix k n)) + n /\ sent = lenp_prefix k n ++ firstn (N.to_nat n) xs) /\
+    (forall e, r = DErr e -> is_retry e = false).
+Proof. exact memory_to_sink_any. Qed.
+Print Assumptions C13_memory_to_sink_any.
+
+(* decoding a fixed-width frame from ANY source into ANY sink: a reported success means exactly the framed octets were handed
+   to the sink, in order, and the source stands right behind the frame; otherwise what reached the sink is a prefix of them *)
+Theorem C13_decode_to_sink_fixed : forall k s snk0 n payload r res s' k',
+  k <> LVar -> n <= lk_max k -> N.of_nat (length payload) = n ->
+  s_stream s = lenp_prefix k n ++ payload ++ r ->
+  lenp_decode_source_to_sink k s snk0 = Some (res, s', k') ->
+  exists moved, k_got k' = k_got snk0 ++ moved /\ (exists rest, payload ++ r = moved ++ rest) /\
+    (forall c, res = DOk c -> c = n /\ moved = payload /\ s_stream s' = r).
+Proof. exact decode_to_sink_fixed. Qed.
+Print Assumptions C13_decode_to_sink_fixed.
+
+(* every entry point returns, whatever the drivers do (the model's fuel never runs out) *)
+Theorem C13_encoders_return : forall k snk0,
+  (forall xs n, lenp_memory_to_sink k snk0 xs n <> None) /\
+  (forall b, lenp_buffer_to_sink k snk0 b <> None) /\
+  (forall b n, lenp_buffer_to_sink_n k snk0 b n <> None) /\
+  (forall active cs, lenp_chunks_to_sink k snk0 active cs <> None).
+Proof.
+  intros k snk0. split; [intros; apply memory_to_sink_total|]. split; [intros; apply buffer_to_sink_total|].
+  split; [intros; apply buffer_to_sink_n_total|intros; apply chunks_to_sink_total].
+Qed.
+Print Assumptions C13_encoders_return.
+Theorem C13_decoders_return : forall k s,
+  (forall size, lenp_memory_from_source k s size <> None) /\
+  (forall b, lenp_buffer_from_source k s b <> None) /\
+  (forall snk0, lenp_decode_source_to_sink k s snk0 <> None).
+Proof.
+  intros k s. split; [intros; apply memory_from_source_total|]. split; [intros; apply buffer_from_source_total|intros; apply decode_source_to_sink_total].
+Qed.
+Print Assumptions C13_decoders_return.
 
 Example C13_example :
   lenp_memory_to_sink LBe16 (snk_plain false) [7; 8; 9] 3 =
